@@ -132,6 +132,18 @@ class C14(PropBase):
                         got = t[pos:pos + w]
                         if want is None:
                             filled += 1
+                            # a number with decimals: right-aligned like every number, and the row's value to the last printed digit
+                            k = {"LATITUDE": ("lat", 1e-5 * 1.01, 1), "LONGITUDE": ("lon", 1e-5 * 1.01, 1), "DIST": ("dist", 0.101, 1),
+                                 "MACH": ("mach", 0.0101, 0.004), "TEMP": ("temp", 0.101, 0.25)}.get(n)
+                            if k and row.get(k[0]) not in (None, "-"):
+                                try:
+                                    okv = abs(float(got) - float(row[k[0]]) * k[2]) <= k[1]
+                                except ValueError:
+                                    okv = False
+                                if not okv or got != got.strip().rjust(w):
+                                    self.fail(rep, f"column {n} of aircraft {a:06X} shows {got!r}: the row holds {float(row[k[0]]) * k[2]:g}, numbers are right-aligned (-i {groups!r})",
+                                              {"ops": ops, "row_text": t, "header": header, "column": n, "row_state": row})
+                                    return
                             continue
                         if want:
                             filled += 1
